@@ -121,9 +121,16 @@ func init() {
 		Technique: "deterministic simulation of xz writer call histories; every recorded sink history is judged by an independent executable model of the .xz/LZMA2 format (own parser+decoder) and by liblzma",
 		Rule: "case = (WriterConfig, payload recipe, Write partition, Close); every emitted image is parsed and decoded by refxz/reflzma (and liblzma when linked): structure, CRCs, sizes, index, backward size, padding, checks, " +
 			"declared dictionary >= every distance and == smallest code >= DictCap, exact BlockSize for non-last blocks; non-trivial = non-empty payload; distinct = distinct scenario digests",
-		Gen: func(r *sim.Rng, tier string, idx int) *WCase { return genXZWCase(r, tier, idx, false) },
+		Gen: func(r *sim.Rng, tier string, idx int) *WCase {
+			c := genXZWCase(r, tier, idx, false)
+			wildConfig(r, c)
+			return c
+		},
 		Run: func(c *WCase, x *sim.Ctx) *sim.Violation {
 			res := runWriter(c, x)
+			if refusedWild(c, res, x) {
+				return nil
+			}
 			probeWCase(c, res, x)
 			if len(res.Log) > 0 {
 				x.Nontrivial(1)
